@@ -345,7 +345,7 @@ func (e *Engine) newCtx(t *Target) *FnCtx {
 	c := &FnCtx{eng: e, w: e.w, pkg: t.pkg, info: t.pkg.TypesInfo, fname: t.Key, spec: t.spec,
 		declared: map[string]bool{}, counts: map[string]int{}, paramVals: map[string]Val{}, paramObjs: map[string]types.Object{},
 		unmodelled: map[string]bool{}, trusted: map[string]bool{}, strLits: map[string]string{}, factCache: map[string]bool{},
-		ghost: map[string]Val{}, ghostFns: map[string]string{}, deps: map[string]bool{}, callHeapKeys: map[string]bool{}, sig: t.sig}
+		ghost: map[string]Val{}, ghostFns: map[string]string{}, axiomsDone: map[string]bool{}, deps: map[string]bool{}, callHeapKeys: map[string]bool{}, sig: t.sig}
 	if t.decl != nil {
 		c.decl = t.decl
 	} else if t.lit != nil {
@@ -440,8 +440,22 @@ func (e *Engine) verifyFunc(t *Target) (res *FuncResult) {
 		}
 	}
 	if fs != nil {
-		if fs.Assigns == "nothing" {
+		if fs.Assigns != "" {
 			c.autoFrame = true
+			if fs.Assigns != "nothing" {
+				esc := c.specScopeAt(st)
+				for k, v := range c.paramVals {
+					esc.vars[k] = v
+				}
+				for _, item := range splitTop(fs.Assigns, ',') {
+					ex, err := parseSpecExpr(item)
+					if err != nil {
+						c.unsupported = append(c.unsupported, "bad assigns clause")
+						continue
+					}
+					c.frameExcept = append(c.frameExcept, esc.eval(ex))
+				}
+			}
 		}
 		sc := c.specScopeAt(st)
 		for k, v := range c.paramVals {
@@ -450,6 +464,9 @@ func (e *Engine) verifyFunc(t *Target) (res *FuncResult) {
 		sc.old = nil
 		for _, r := range fs.Requires {
 			c.fact(sc.boolOf(r.Expr))
+		}
+		for _, u := range fs.Uses {
+			c.useLemma(st, u)
 		}
 		// vacuity: the precondition must be satisfiable
 		o := &Obligation{Name: t.Key + "/vacuity/pre", Kind: "vacuity", Func: t.Key, NCmds: len(c.cmds), PC: "true", Prop: "false", Text: "precondition is satisfiable", ctx: c, Vacuity: true, Props: c.curProps}
@@ -522,9 +539,9 @@ func (e *Engine) verifyFunc(t *Target) (res *FuncResult) {
 		o.Spec = en.Expr
 		o.scope = sc
 	}
-	if fs.Assigns == "nothing" {
-		t := c.frameFormula(c.entry, final, "alloc0", nil)
-		c.obligeNamed(final, "frame", "frame", t, "assigns nothing: memory allocated before the call is unchanged", token.NoPos)
+	if fs.Assigns != "" {
+		t := c.frameFormula(c.entry, final, "alloc0", c.frameExcept)
+		c.obligeNamed(final, "frame", "frame", t, "assigns "+fs.Assigns+": all other memory allocated before the call is unchanged", token.NoPos)
 	}
 	return
 }
@@ -595,10 +612,14 @@ func (e *Engine) dischargeOne(o *Obligation) {
 		o.Result = SolverResult{Status: "unsat", Solver: "trivial"}
 		return
 	}
-	r := runQuery(o.query(), nil, e.timeoutS)
+	to := e.timeoutS
+	if o.Vacuity {
+		to = 3
+	}
+	r := runQuery(o.query(), nil, to)
 	if r.Status != "sat" && r.Status != "unsat" && !o.Vacuity {
 		// retry once with a longer timeout
-		r2 := runQuery(o.query(), nil, e.timeoutS*3)
+		r2 := runQuery(o.query(), nil, e.timeoutS*5)
 		r2.Time += r.Time
 		r = r2
 	}
